@@ -291,8 +291,13 @@ def r8(ctx):
                 r = s.get("r", {})
                 if r.get("k") == "agg" and r.get("adt") == "core::ops::range::Range":
                     starts.append(k2.describe_operand(P, body, r["ops"][0]))
-        ctx.ob("remove_move range", starts == [("int", 0, "usize")], f"remove_move scans entries from {starts}; entries before the cursor come back after set_mask rewinds, so the scan must start at 0",
-               site=site, sample={"start": str(starts)})
+        # ... or `for e in &mut self.moves` / `self.moves.iter_mut()`: a loop over the whole list
+        whole_iter = any(("IntoIterator>::into_iter" in t_["f"].get("fn_args", "") or "::iter_mut" in t_["f"].get("fn", "")) and t_["a"]
+                         and (lambda d: d == ("ref", ("place", "self", ("d", "moves"))) or (d[0] == "call" and d[1].endswith("DerefMut>::deref_mut") and d[2] == (("ref", ("place", "self", ("d", "moves"))),)))(
+                             (lambda x: x[1] if x[0] in ("ref", "proj") and isinstance(x[1], tuple) and x[1][0] == "call" else x)(k2.describe_operand(P, body, t_["a"][0])))
+                         for _, t_ in P.calls(key))
+        ctx.ob("remove_move range", starts == [("int", 0, "usize")] or (not starts and whole_iter), f"remove_move scans entries from {starts}; entries before the cursor come back after set_mask rewinds, so the scan must start at 0",
+               site=site, sample={"start": str(starts), "whole_list_iterator": whole_iter})
         ok = False
         for lf in rets:
             if lf.ret == T.TRUE:
